@@ -432,7 +432,17 @@ def rule_G(FA):
                         st, expl, shown = ('ok', 'delegates to %s::%s with the same argument' % (gbase, g['name']), []) if ok else \
                             ('violation', 'delegates to %s::%s which has no matching contract for this argument' % (gbase, g['name']), [])
                     elif sk == 'deleg?':
-                        st, expl, shown = 'violation', 'answer produced by %s which the rule cannot follow' % show(val), []
+                        # the answer is computed by a call the rule cannot open (`iter.try_fold(..)`): the conditions under which
+                        # that call is reached still have to contain the guard; if they do not, the callee may check it: no verdict
+                        extra = param_term(f, pos + 1) if cls == 'window' and pos + 1 < f['argc'] else None
+                        st, expl, shown = classify(cls, P, atoms, LEN, extra)
+                        if st != 'ok':
+                            foreign = isinstance(val, tuple) and val[:1] == ('call',) and not any(
+                                strip_generics(g2['path']) == val[1] for g2 in FA.fns.values())
+                            if foreign:
+                                st, expl = 'note', 'answer produced by %s, which the rule cannot follow' % show(val)[:100]
+                            else:
+                                st, expl, shown = 'violation', 'answer produced by %s which the rule cannot follow' % show(val), []
                     else:
                         extra = param_term(f, pos + 1) if cls == 'window' and pos + 1 < f['argc'] else None
                         st, expl, shown = classify(cls, P, atoms, LEN, extra)
@@ -742,6 +752,9 @@ def rule_TW(FA):
         detail = ''
         for sk, atoms, val, where, g in conds:
             # Some(i - k) where k is the payload of rank1(self, i)
+            if val is None:
+                continue
+            val = norm(canon_opt(val))
             if val[0] == 'bin' and val[1] == 'Sub' and val[2] == P[1]:
                 k = val[3]
                 src = [x for x in subterms(k) if _is_call_to(x, 'rank1', P)]
@@ -883,9 +896,11 @@ def rule_SELP(FA):
         f = cands[0]
         fi = FA.inlined(f)   # the descent / ascent may live in private helpers
         for spec in FA.specs(f):
-            F = FA.fn(fi, spec)
-            bad = []
-            n_checked = 0
+          bad = []
+          n_checked = 0
+          # the passes may live in closures (`levels.iter().rev().try_fold(i, |acc, lvl| ..)`)
+          for body in FA.with_closures(fi):
+            F = FA.fn(body, spec if body is fi else {k: v for k, v in spec.items() if k in FA.const_params(body)})
             for bi, t in F.calls():
                 fn = t['f']['fn']
                 nm = fn['name']
@@ -914,11 +929,11 @@ def rule_SELP(FA):
                         bad.append((t['line'], 'unwraps the answer of the per-level `%s`' % nm))
                     elif 'branch' not in users:
                         bad.append((t['line'], 'does not propagate a None of the per-level `%s` with `?`' % nm))
-            key = 'R-SELP|%s::select%s' % (base, spec_key(spec))
-            if bad:
-                out.append(Inst('R-SELP', key, 'violation', bad[0][0], 'select %s: a missing occurrence no longer stays a None up to the root' % '; '.join(sorted({b for _, b in bad})), props))
-            elif n_checked < 2:
-                out.append(Inst('R-SELP', key, 'violation', f['span'], 'expected checked per-level rank and select calls, found %d (anchor lost)' % n_checked, props))
-            else:
-                out.append(Inst('R-SELP', key, 'ok', f['span'], '%d per-level queries, all checked and propagated with `?`' % n_checked, props))
+          key = 'R-SELP|%s::select%s' % (base, spec_key(spec))
+          if bad:
+              out.append(Inst('R-SELP', key, 'violation', bad[0][0], 'select %s: a missing occurrence no longer stays a None up to the root' % '; '.join(sorted({b for _, b in bad})), props))
+          elif n_checked < 2:
+              out.append(Inst('R-SELP', key, 'violation', f['span'], 'expected checked per-level rank and select calls, found %d (anchor lost)' % n_checked, props))
+          else:
+              out.append(Inst('R-SELP', key, 'ok', f['span'], '%d per-level queries, all checked and propagated with `?`' % n_checked, props))
     return out
